@@ -626,7 +626,9 @@ class NameRecord(object):
         self.platformID = safeEval(attrs["platformID"])
         self.platEncID = safeEval(attrs["platEncID"])
         self.langID = safeEval(attrs["langID"])
-        s = strjoin(content).strip()
+        # strip the white space the XML writer puts around the text - and only that:
+        # NBSP, U+2028, U+0085 ... at either end are part of the name
+        s = strjoin(content).strip(" \t\r\n")
         encoding = self.getEncoding()
         # toXML() writes unicode="False" when the string could not be decoded (even in a
         # Unicode-compatible encoding) and dumps it 8-bit: an explicit attribute wins
